@@ -469,7 +469,15 @@ class Array:
             except StopIteration:  # nothing to append
                 return
             array = self._checkarrayforappend(firstarray)
-            array.tofile(str(self._datapath))
+            try:
+                array.tofile(str(self._datapath))
+            except Exception as exception:
+                # array is still empty, so the file has to be empty as well,
+                # otherwise it is not consistent with the array description
+                os.truncate(self._datapath, 0)
+                s = f"{exception}\nAppending of data did not succeed. " \
+                    f"Shape of array still is {self._shape}."
+                raise AppendDataError(s)
             self._update_len(lenincrease=array.shape[0])
         with self._open_array() as (v, fd):
             oldshape = v.shape
